@@ -483,6 +483,10 @@ class Policy:
     def on_stmt(self, interp, stmt, cfg):
         return cfg
 
+    def equal_hook(self, l, r):
+        """Scenario specific equality of abstract objects (None: undecided by the hook)."""
+        return None
+
     def abstract_local(self, name, val, node):
         """Value actually stored for a kept local (identity by default; rules may widen)."""
         return val
@@ -1387,6 +1391,21 @@ class Interp:
                 pass
         if name == "add" and isinstance(l, ListV) and isinstance(r, ListV):
             return ListV(l.items + r.items, l.kind)
+        if name in ("bitor", "bitand", "sub", "bitxor") and isinstance(l, ListV) and l.kind == "set":
+            other = r
+            if isinstance(other, Const) and isinstance(other.v, (frozenset, set)):
+                other = ListV([Const(x) for x in sorted(other.v, key=repr)], "set")
+            if isinstance(other, ListV):
+                a, b = list(dict.fromkeys(l.items)), list(dict.fromkeys(other.items))
+                if name == "bitor":
+                    res = a + [x for x in b if x not in a]
+                elif name == "bitand":
+                    res = [x for x in a if x in b]
+                elif name == "sub":
+                    res = [x for x in a if x not in b]
+                else:
+                    res = [x for x in a if x not in b] + [x for x in b if x not in a]
+                return ListV(res, "set")
         if name == "add" and isinstance(l, ListV) and l.kind == "list" and inplace and not isinstance(r, (ListV, Const)):
             return ListV(l.items + (App("star", (r,)),), l.kind)
         return App(("i" if inplace else "") + name, (l, r))
@@ -1470,6 +1489,9 @@ class Interp:
         return None
 
     def equal(self, l, r):
+        h = self.policy.equal_hook(l, r)
+        if h is not None:
+            return h
         if isinstance(l, Sym) and isinstance(r, Sym) and l.tag and r.tag and l.tag[0] == "object" and r.tag[0] == "object":
             return l.tag == r.tag  # distinct opaque objects of a scenario
         if isinstance(l, Const) and isinstance(r, Const):
@@ -1860,6 +1882,8 @@ class Interp:
                     return [(cfg, v)]
                 if len(args) == 3:
                     return [(cfg, args[2])]
+            if isinstance(base, Const) and base.v is None and len(args) == 3:
+                return [(cfg, args[2])]
             return [(cfg, App("getattr", tuple(args)))]
         if fname == "hasattr" and len(args) == 2:
             if isinstance(args[0], NodeV) and isinstance(args[1], Const):
